@@ -45,8 +45,7 @@ def reg(pid, units, explanation, assumptions=(), level_text='', level_note='', t
 
 NOT_BUILT = 'planned unit not built (DESIGN.md section 8): no contract on this code is discharged yet, so the property is not claimed'
 NOT_APPLICABLE = {
-    'C02': NOT_BUILT, 
-    'C15': NOT_BUILT,
+    'C02': 'a deductive proof of epsilon-closure construction over FxHashMap<BTreeSet<StateID>,_> and of partition refinement on this code is out of reach (the Kani stand-in did not terminate on a 2+2-state concat harness in 20 min); the Thompson-layer unit U-nfa is a stretch item that is not built, and alone it would not decide the property',
     'C03': 'partition refinement is written as closure chains over BTreeMap<StateID, BTreeMap<CharClassID, Vec<StateID>>>; Verus cannot ingest it without a rewrite that would be a model, and the Kani stand-in did not terminate at 3 states x 2 classes (25 min, 5.7 GB)',
     'C14': 'concurrency: Kani has no thread support and Verus would need its own permission types in place of RwLock/LazyLock/Arc (a rewrite, i.e. a model)',
     'C16': 'behaviour lives in the expansion of serde derives and in serde_json; there is no function of scnr to put a contract on',
@@ -109,3 +108,10 @@ reg('C08', ['u_class'],
      'NOT decided: the ASCII facts about \\d \\s \\w (they are statements about char::is_numeric/is_whitespace/is_alphanumeric and seshat tables) and `.` as a top-level Dot node (MatchFunction::try_from(&Ast) is not under contract)',
      'the [:class:] arm, TryFrom<&ClassUnicode> and TryFrom<&ClassPerl> are trusted leaves', 'regex_syntax::ast types are what the crate (0.8.x in the offline registry) declares'],
     technique='Verus function contracts by structural recursion over the imported AST; closure contracts generated from closure bodies')
+
+reg('C15', ['u_ast'],
+    'Nfa::try_from_ast returns Err for every AST that contains, at any depth, a construct documented as unsupported: flags (?i), assertions (anchors, word boundaries), non-greedy repetition, flagged non-capturing groups - by structural recursion over the imported regex_syntax AST (Concat/Alternation loops with invariants, {m,n} expansion loops terminate)',
+    ['NOT decided: "never panics" and "supported patterns always build" for the whole pipeline (needs the internal invariants of C02/C03); look-around syntax and syntax errors are rejected by regex_syntax::Parser (trusted); unknown or valued Unicode classes are rejected in TryFrom<&ClassUnicode> for MatchFn (a trusted leaf of U-class)',
+     'the NFA combinators called by try_from_ast are opaque stubs (signatures extracted); error-message construction and AST Display are trusted replacements',
+     'MultiPatternNfa::try_from_patterns / parse_regex_syntax (the path from a pattern string to try_from_ast) are not under contract'],
+    technique='Verus function contract by structural recursion over the imported AST')
